@@ -32,7 +32,7 @@ def run(seed):
     json.dump(meta, open(os.path.join(d, "meta.json"), "w"), indent=1)
     return seed, meta["detected_by"], {p: r["obligations"] for p, r in res.items() if r["detected"]}
 seeds = sys.argv[1:] or sorted(os.path.basename(os.path.dirname(p)) for p in glob.glob(os.path.join(V, "seeded", "*", "patch.diff")))
-with concurrent.futures.ThreadPoolExecutor(max_workers=3) as ex:
+with concurrent.futures.ThreadPoolExecutor(max_workers=4) as ex:
     for seed, det, obl in ex.map(run, seeds):
         print(seed, "detected by", det or "NONE")
         for p, o in obl.items():
